@@ -124,7 +124,8 @@ pub fn run_enum(o: &EnumOpts, gen: &(dyn Fn(&mut EnumCtx) + Sync)) -> EnumOutcom
             distinct: HashSet::new(),
             states: HashSet::new(),
             samples: vec![],
-            deadline,
+            // the wall-clock cap bounds the enumeration, not the confirmation of one case
+            deadline: if single { std::time::Instant::now() + std::time::Duration::from_secs(3600) } else { deadline },
             capped: false,
             cases: 0,
         };
@@ -172,6 +173,9 @@ pub fn run_enum(o: &EnumOpts, gen: &(dyn Fn(&mut EnumCtx) + Sync)) -> EnumOutcom
         sup::EMERGENCY_ARG.store(&*em as *const Em as usize, std::sync::atomic::Ordering::SeqCst);
         sup::EMERGENCY_FN.store(emergency as fn(usize) as usize, std::sync::atomic::Ordering::SeqCst);
         gen(&mut e);
+        if single && std::env::var_os("AXMC_DEBUG_SINGLE").is_some() {
+            eprintln!("single run of {:?}: cases {} findings {:?}", e.ctx.only, e.cases, e.findings.map.keys().collect::<Vec<_>>());
+        }
         sup::EMERGENCY_FN.store(0, std::sync::atomic::Ordering::SeqCst);
         e.ctx.idle();
         finish(&mut e, run_id, shard, single, &tag);
@@ -208,28 +212,30 @@ pub fn run_enum(o: &EnumOpts, gen: &(dyn Fn(&mut EnumCtx) + Sync)) -> EnumOutcom
     for ev in &res.events {
         let class = ev.desc.split('\t').next().unwrap_or("").to_string();
         let how = ev.how.split(':').next().unwrap_or("").to_string();
-        let mut same = true;
-        // every class of death is confirmed in isolation once; later members are counted
+        // every class of death is confirmed in isolation once; later members are counted.
+        // "Reproduces" = the case alone does not return either. The manner may differ (a loop
+        // that also allocates ends as a hang or as an oversized allocation depending on which
+        // guard fires first): the key then says `no-return` instead of the manner.
         let reps = if confirmed.insert(format!("{how}|{class}")) { 2 } else { 0 };
+        let mut manners: Vec<String> = vec![];
         for _ in 0..reps {
             let (h, _m) = sup::run_single(&o.sup, ev.case_idx, o.sup.hang_secs + 20, &worker);
-            if h.split(':').next().unwrap_or("") != how {
-                same = false;
-            }
+            manners.push(h.split(':').next().unwrap_or("").to_string());
         }
-        if !same {
+        if manners.iter().any(|h| h == "ok") {
             crate::common::machinery_error(&format!(
-                "worker death ({}) on case {} [{}] did not reproduce",
-                ev.how, ev.case_idx, ev.desc
+                "worker death ({}) on case {} [{}] did not reproduce (alone: {:?})",
+                ev.how, ev.case_idx, ev.desc, manners
             ));
         }
+        let how = if manners.iter().all(|h| *h == how) { how } else { "no-return".to_string() };
         let key = format!("{}|{}|{}", o.crash_subject, how, class);
         findings.merge_one(
             key.clone(),
             Finding {
                 key,
                 what: format!("process {} ({}) on case {}: {}", if how == "hang" { "hangs" } else { "dies" }, ev.how, ev.case_idx, ev.desc.replace('\t', " ")),
-                witness: json!({"engine": "enum-crash", "case_idx": ev.case_idx, "how": ev.how, "desc": ev.desc}),
+                witness: json!({"engine": "enum-crash", "key": format!("{}|{}|{}", o.crash_subject, how, class), "case_idx": ev.case_idx, "how": ev.how, "desc": ev.desc}),
                 count: 1,
             },
         );
@@ -279,10 +285,33 @@ pub fn confirm_enum(
     ws.iter()
         .map(|w| {
             if w["engine"] == "enum-crash" {
-                // confirmed twice in isolation by run_enum
-                let class = w["desc"].as_str().unwrap_or("").split('\t').next().unwrap_or("").to_string();
-                let how = w["how"].as_str().unwrap_or("").split(':').next().unwrap_or("").to_string();
-                return Ok(vec![format!("{}|{}|{}", o.crash_subject, how, class)]);
+                let key = w["key"].as_str().unwrap_or("").to_string();
+                if crate::common::replay_artefact().is_none() {
+                    // confirmed twice in isolation by run_enum a moment ago
+                    return Ok(vec![key]);
+                }
+                // replay of a stored artefact: the case must still not return
+                let idx = match w["case_idx"].as_u64() {
+                    Some(i) => i,
+                    None => return Err("witness has no case index".to_string()),
+                };
+                let worker = |ctx: &mut WorkerCtx| {
+                    let mut e = EnumCtx {
+                        ctx,
+                        idx: 0,
+                        findings: Findings::new(),
+                        counters: BTreeMap::new(),
+                        distinct: HashSet::new(),
+                        states: HashSet::new(),
+                        samples: vec![],
+                        deadline,
+                        capped: false,
+                        cases: 0,
+                    };
+                    gen(&mut e);
+                };
+                let (how, _msgs) = sup::run_single(&o.sup, idx, o.sup.hang_secs + 20, &worker);
+                return Ok(if how == "ok" { vec![] } else { vec![key] });
             }
             let idx = match w["case_idx"].as_u64() {
                 Some(i) => i,
